@@ -1042,11 +1042,16 @@ def gen_case(rng, force=None):
     for _ in range(rng.choice([0, 0, 1, 1, 2, 3])):
         kind = rng.choice(['file', 'file', 'dir', 'dir', 'overwrite', 'merge', 'link'])
         if kind == 'overwrite':
-            cands = [k for k, v in existing.items() if v == 'f' and '/' not in k and k != cmd_name and k not in copies]
+            cands = [k for k, v in existing.items() if v == 'f' and '/' not in k and k not in copies]
             if not cands:
                 continue
             nm = rng.choice(cands)
-            host.append(['f', nm, {'seed': rng.randrange(1 << 30), 'len': rng.choice([0, 5, cluster, 2 * cluster + 9])}])
+            if '/' not in cmd_name and cmd_name not in copies and rng.random() < 0.3:
+                nm = cmd_name       # a new command-line file is copied in: it is the COPIED text that must end up rewritten
+            if nm == cmd_name:
+                host.append(['f', nm, {'text': gen_cmdline(rng)}])
+            else:
+                host.append(['f', nm, {'seed': rng.randrange(1 << 30), 'len': rng.choice([0, 5, cluster, 2 * cluster + 9])}])
             copies.append(nm)
         elif kind == 'merge':
             cands = [k for k, v in existing.items() if v == 'd' and '/' not in k and k not in copies]
